@@ -243,6 +243,41 @@ def sizeStep (k : LeafKind) (a b : Nat) (st : AbsStack) : Option AbsStack :=
   | some op => astep op st
   | none => none
 
+
+/-! ### Size preconditions (guards)
+
+`guardOf k a b s`: does component `k` with parameters `a`, `b` find the population sizes `s` (top first)
+acceptable — `some true`: it succeeds (as far as sizes are concerned), `some false`: it returns `Err` or panics,
+`none`: not modelled (the outcome depends on more than sizes).  Read from each component's `execute`/`select`/
+`replace`; on every size probe where it answers `some true` the real component must succeed (so a refusal of the
+real component implies a violated `guardOf` — the direction the guard theorems need). -/
+def guardOf (k : LeafKind) (a b : Nat) (s : List Nat) : Option Bool :=
+  match k, s with
+  -- the selection driver reads the current population
+  | .All, s | .None, s => some (decide (1 ≤ s.length))
+  | .CloneSingle, s => some (s.head? == some 1)                         -- `into_single_ref`
+  | .FullyRandom, s => some (match s with | n :: _ => a == 0 || decide (1 ≤ n) | [] => false)
+  | .RandomWithoutRepetition, s => some (match s with | n :: _ => decide (a ≤ n) | [] => false)
+  | .Tournament, s =>                                                    -- `a` winners of tournaments of `b`
+    some (match s with | n :: _ => decide (b ≤ n) && (a == 0 || decide (1 ≤ b)) | [] => false)
+  | .DERand, s => some (match s with | n :: _ => decide (2 * a + 1 ≤ n) | [] => false)
+  | .DEBest, s => some (match s with | n :: _ => decide (2 * a ≤ n) && decide (1 ≤ n) | [] => false)
+  | .DECurrentToBest, s => some (match s with | n :: _ => decide (2 * a ≤ n) && decide (1 ≤ n) | [] => false)
+  | .DeterministicFitnessProportional, s => some (match s with | n :: _ => decide (a ≤ b) && decide (1 ≤ n) | [] => false)
+  | .DEMutation, s => some (match s with | n :: _ => n % (2 * a + 1) == 0 | [] => false)
+  -- the replacement driver pops offspring and parents
+  | .MuPlusLambda, s | .Generational, s | .RandomReplacement, s | .Merge, s | .DiscardOffspring, s
+  | .InterleavePopulations, s => some (decide (2 ≤ s.length))
+  | .KeepBetterAtIndex, s => some (match s with | x :: y :: _ => x == y | _ => false)
+  | .ExponentialAnnealingAcceptance, s =>          -- the kept population must be a single individual (contract)
+    match s with
+    | x :: y :: _ => if x == 0 || y == 0 then some false else if x == 1 && y == 1 then some true else none
+    | _ => some false
+  | .DuplicatePopulation, s | .ClearPopulation, s => some (decide (1 ≤ s.length))
+  | .NPointCrossover, s | .UniformCrossover, s | .ArithmeticCrossover, s | .NormalMutation, s =>
+    some (decide (1 ≤ s.length))
+  | _, _ => none
+
 /-! ### Trees with parameters -/
 
 mutual
@@ -382,7 +417,11 @@ def sparams (k : LeafKind) (fields : List Sexp) : Option (Nat × Nat) :=
   match k with
   | .RandomSpread | .RandomPermutation | .RandomBitstring => (natField "population_size" fields).map (·, 0)
   | .CloneSingle | .FullyRandom | .RandomWithoutRepetition | .RouletteWheel | .StochasticUniversalSampling
-  | .Tournament | .LinearRank | .ExponentialRank => (natField "num_selected" fields).map (·, 0)
+  | .LinearRank | .ExponentialRank => (natField "num_selected" fields).map (·, 0)
+  | .Tournament =>        -- `b` = the tournament size (no effect on sizes; a guard, and part of the skeleton)
+    match natField "num_selected" fields, natField "size" fields with
+    | some a, some b => some (a, b)
+    | _, _ => none
   | .MuPlusLambda | .RandomReplacement => (natField "max_population_size" fields).map (·, 0)
   | .DERand | .DEBest | .DECurrentToBest | .DEMutation => (natField "y" fields).map (·, 0)
   | .NPointCrossover | .UniformCrossover | .ArithmeticCrossover | .CycleCrossover =>
